@@ -864,4 +864,269 @@ theorem call_calls_other (g : G) (t : Tid) (op : Op) (sc : List Nat) (t' : Tid) 
 theorem quiet_of_idle (k : SemKey) (g : G) (h : ∀ t, g.calls t = none) : Quiet k g := by
   intro t c hc; rw [h t] at hc; cases hc
 
+/-! ## sequential runs of the shared-memory calls -/
+
+macro "shm_simp" " [" ts:Lean.Parser.Tactic.simpLemma,* "]" : tactic =>
+  `(tactic| simp [G.call, G.start, G.handleOf, G.setCall, G.setRet, G.setHandle, runCall, seqFuel, G.step,
+    Call.next, Call.after, SemNewSt.next, SemNewSt.after, SemFreeSt.next, SemFreeSt.after, sysStep, Sys.interruptible,
+    SemNewSt.handle, acquireNext, acquireAfter, releaseNext, releaseAfter,
+    ShmNewSt.next, ShmNewSt.after, ShmNewSt.cleanFrom, ShmFreeSt.next, ShmFreeSt.after, lockMode,
+    shmOpenF, lookupFd, OS.setProc,
+    semOpenReopenInitZero, semCreateUnlinks, semCreateMarksCreated, semOpen1Retry,
+    shmFtruncateCreatorOnly, shmLockModeByExists, shmLockInit, $ts,*])
+
+/-- descriptor and mapping bookkeeping of a successful `pp_shm_create_handle` in a process:
+    the descriptor is closed again, one mapping of `len` bytes of segment `s` is added -/
+def Proc.afterNew (pr : Proc) (s : SegId) (len : Nat) (ro : Bool) : Proc :=
+  { pr with fds := pr.fds.filter (fun x => !decide (x.1 = pr.nextFd)),
+            maps := { addr := pr.nextAddr, seg := s, off := 0, len := len,
+                      writable := hasFlag (if ro then shmMmapProtRO else shmMmapProtRW) PROT_WRITE,
+                      shared := hasFlag shmMmapFlags MAP_SHARED } :: pr.maps,
+            nextFd := pr.nextFd + 1, nextAddr := pr.nextAddr + pages len + 1 }
+
+def OS.afterShmNew (os : OS) (p : Pid) (s : SegId) (len : Nat) (ro : Bool) : OS :=
+  { os with procs := fun q => if q = p then (os.procs p).afterNew s len ro else os.procs q }
+
+/-- the OS after `shm_open (k, O_CREAT|O_EXCL)` + `ftruncate (size)` on an unbound name: zero-filled -/
+def OS.shmCreate (os : OS) (k : ShmKey) (size : Nat) : OS :=
+  { os with shmNames := fun k' => if k' = k then some os.nextSeg else os.shmNames k',
+            segs := fun s' => if s' = os.nextSeg then ⟨List.replicate size 0, k⟩ else os.segs s',
+            nextSeg := os.nextSeg + 1 }
+
+def OS.shmRemove (os : OS) (k : ShmKey) : OS :=
+  { os with shmNames := fun k' => if k' = k then none else os.shmNames k' }
+
+def OS.afterMunmap (os : OS) (p : Pid) (addr len : Nat) : OS :=
+  { os with procs := fun q => if q = p then munmapF (os.procs p) addr len else os.procs q }
+
+theorem resize_nil (n : Nat) : resize [] n = List.replicate n 0 := by simp [resize]
+
+/-- the size recorded for (and reported by) a handle opened on an existing segment of `L` bytes -/
+def repSize (req L : Nat) : Nat := if req = 0 ∨ L < req then L else req
+
+theorem existingSize_eq (req L : Nat) : existingSize req L = repSize req L := by
+  simp [existingSize, repSize, shmKeepSmallerRequest]
+
+theorem clampSize_rep (req L : Nat) : clampSize req (repSize req L) = repSize req L := by
+  simp only [clampSize, repSize, shmNewClamp]
+  split <;> simp_all
+  omega
+
+theorem clampSize_self (n : Nat) : clampSize n n = n := by simp [clampSize]
+
+theorem repSize_le (req L : Nat) : repSize req L ≤ L := by
+  simp only [repSize]; split <;> omega
+
+theorem repSize_ne_zero (req L : Nat) (h : L ≠ 0) : repSize req L ≠ 0 := by
+  simp only [repSize]; split <;> omega
+
+/-- the handle `p_shm_new` returns to the creator -/
+def creatorHandle (g : G) (t : Tid) (k : ShmKey) (size : Nat) (ro : Bool) : PShm :=
+  { created := true, key := k, addr := (g.os.procs (g.pidOf t)).nextAddr, size := size,
+    sem := ⟨true, .lock k, g.os.nextObj, .create, 1⟩, ro := ro }
+
+/-- `p_shm_new` of an unbound name whose lock semaphore does not exist either: 5 system calls -/
+theorem call_newShm_fresh (g : G) (t : Tid) (h : Hid) (k : ShmKey) (size : Nat) (ro : Bool)
+    (hi : Idle g t) (hh : g.hs h = none) (hk : g.os.shmNames k = none) (hl : g.os.semNames (.lock k) = none) (hs : size ≠ 0) :
+    (g.call t (.newShm h k size ro)).os =
+      (((g.os.shmCreate k size).afterShmNew (g.pidOf t) g.os.nextSeg size ro).semCreate (.lock k) 1) ∧
+    (g.call t (.newShm h k size ro)).hs = (fun h' => if h' = h then some (g.pidOf t, .shm (creatorHandle g t k size ro)) else g.hs h') ∧
+    (g.call t (.newShm h k size ro)).calls t = none ∧ (g.call t (.newShm h k size ro)).pidOf = g.pidOf := by
+  have c1 := shmCreat1
+  have c2 := creat1
+  refine ⟨?_, ?_⟩
+  · shm_simp [hi.alive, hi.idle, hh, hk, hl, hs, c1, c2, semOpenF, OS.semCreate, OS.afterShmNew, OS.shmCreate, Proc.afterNew, resize_nil, clampSize_self]
+    constructor <;> (funext x; split <;> first | rfl | simp_all)
+  · shm_simp [hi.alive, hi.idle, hh, hk, hl, hs, c1, c2, semOpenF, creatorHandle, clampSize_self]
+
+/-- … when a stale lock semaphore exists (left by a crash): CREATE mode unlinks and re-creates it: 7 system calls -/
+theorem call_newShm_fresh_stale_lock (g : G) (t : Tid) (h : Hid) (k : ShmKey) (size : Nat) (ro : Bool) (ol : ObjId)
+    (hi : Idle g t) (hh : g.hs h = none) (hk : g.os.shmNames k = none) (hl : g.os.semNames (.lock k) = some ol) (hs : size ≠ 0) :
+    (g.call t (.newShm h k size ro)).os =
+      ((((g.os.shmCreate k size).afterShmNew (g.pidOf t) g.os.nextSeg size ro).semRemove (.lock k)).semCreate (.lock k) 1) ∧
+    (g.call t (.newShm h k size ro)).hs = (fun h' => if h' = h then some (g.pidOf t, .shm (creatorHandle g t k size ro)) else g.hs h') ∧
+    (g.call t (.newShm h k size ro)).calls t = none ∧ (g.call t (.newShm h k size ro)).pidOf = g.pidOf := by
+  have c1 := shmCreat1
+  have c2 := excl1
+  have c3 := creatC
+  refine ⟨?_, ?_⟩
+  · shm_simp [hi.alive, hi.idle, hh, hk, hl, hs, c1, c2, c3, semOpenF, OS.semCreate, OS.semRemove, OS.afterShmNew, OS.shmCreate, Proc.afterNew, resize_nil, clampSize_self]
+    constructor <;> (funext x; split <;> first | rfl | simp_all)
+  · shm_simp [hi.alive, hi.idle, hh, hk, hl, hs, c1, c2, c3, semOpenF, creatorHandle, clampSize_self]
+
+/-- the handle `p_shm_new` returns to a follower -/
+def followerHandle (g : G) (t : Tid) (k : ShmKey) (req L : Nat) (ro : Bool) (semCreated : Bool) (ol : ObjId) : PShm :=
+  { created := false, key := k, addr := (g.os.procs (g.pidOf t)).nextAddr, size := repSize req L,
+    sem := ⟨semCreated, .lock k, ol, .open, 1⟩, ro := ro }
+
+/-- `p_shm_new` of a bound name (segment of `L ≠ 0` bytes) whose lock exists: 7 system calls,
+    nothing in the name space changes, `repSize req L` bytes are mapped and reported -/
+theorem call_newShm_existing (g : G) (t : Tid) (h : Hid) (k : ShmKey) (req : Nat) (ro : Bool) (s : SegId) (ol : ObjId)
+    (hi : Idle g t) (hh : g.hs h = none) (hk : g.os.shmNames k = some s) (hl : g.os.semNames (.lock k) = some ol)
+    (hL : (g.os.segs s).bytes.length ≠ 0) :
+    (g.call t (.newShm h k req ro)).os = g.os.afterShmNew (g.pidOf t) s (repSize req (g.os.segs s).bytes.length) ro ∧
+    (g.call t (.newShm h k req ro)).hs = (fun h' => if h' = h then
+        some (g.pidOf t, .shm (followerHandle g t k req (g.os.segs s).bytes.length ro false ol)) else g.hs h') ∧
+    (g.call t (.newShm h k req ro)).calls t = none ∧ (g.call t (.newShm h k req ro)).pidOf = g.pidOf := by
+  have c1 := shmExcl1
+  have c2 := shmPlain2
+  have c3 := excl1
+  have c4 := plainO
+  have hr := repSize_ne_zero req _ hL
+  refine ⟨?_, ?_⟩
+  · shm_simp [hi.alive, hi.idle, hh, hk, hl, hr, c1, c2, c3, c4, semOpenF, OS.afterShmNew, Proc.afterNew, existingSize_eq, clampSize_rep]
+    funext x; split <;> first | rfl | simp_all
+  · shm_simp [hi.alive, hi.idle, hh, hk, hl, hr, c1, c2, c3, c4, semOpenF, followerHandle, existingSize_eq, clampSize_rep]
+
+/-- … when the lock semaphore is missing (creator killed before creating it): OPEN mode creates it with value 1 -/
+theorem call_newShm_existing_no_lock (g : G) (t : Tid) (h : Hid) (k : ShmKey) (req : Nat) (ro : Bool) (s : SegId)
+    (hi : Idle g t) (hh : g.hs h = none) (hk : g.os.shmNames k = some s) (hl : g.os.semNames (.lock k) = none)
+    (hL : (g.os.segs s).bytes.length ≠ 0) :
+    (g.call t (.newShm h k req ro)).os =
+      (g.os.afterShmNew (g.pidOf t) s (repSize req (g.os.segs s).bytes.length) ro).semCreate (.lock k) 1 ∧
+    (g.call t (.newShm h k req ro)).hs = (fun h' => if h' = h then
+        some (g.pidOf t, .shm (followerHandle g t k req (g.os.segs s).bytes.length ro true g.os.nextObj)) else g.hs h') ∧
+    (g.call t (.newShm h k req ro)).calls t = none ∧ (g.call t (.newShm h k req ro)).pidOf = g.pidOf := by
+  have c1 := shmExcl1
+  have c2 := shmPlain2
+  have c3 := creat1
+  have hr := repSize_ne_zero req _ hL
+  refine ⟨?_, ?_⟩
+  · shm_simp [hi.alive, hi.idle, hh, hk, hl, hr, c1, c2, c3, semOpenF, OS.afterShmNew, OS.semCreate, Proc.afterNew, existingSize_eq, clampSize_rep]
+    funext x; split <;> first | rfl | simp_all
+  · shm_simp [hi.alive, hi.idle, hh, hk, hl, hr, c1, c2, c3, semOpenF, followerHandle, existingSize_eq, clampSize_rep]
+
+/-- `p_shm_new` of a bound name whose segment has size 0 (its creator was killed between `shm_open`
+    and `ftruncate`): `mmap` of length 0 fails with EINVAL, the call returns NULL and nothing changes
+    in the name space — the name cannot be opened, hence not cleaned up, through the API -/
+theorem call_newShm_zero_segment (g : G) (t : Tid) (h : Hid) (k : ShmKey) (req : Nat) (ro : Bool) (s : SegId)
+    (hi : Idle g t) (hh : g.hs h = none) (hk : g.os.shmNames k = some s) (hL : (g.os.segs s).bytes.length = 0) :
+    (g.call t (.newShm h k req ro)).ret t = some (.fail .EINVAL) ∧
+    (g.call t (.newShm h k req ro)).hs = g.hs ∧
+    (g.call t (.newShm h k req ro)).os.shmNames = g.os.shmNames ∧ (g.call t (.newShm h k req ro)).os.segs = g.os.segs := by
+  have c1 := shmExcl1
+  have c2 := shmPlain2
+  have hr : repSize req 0 = 0 := by simp [repSize]
+  shm_simp [hi.alive, hi.idle, hh, hk, hL, hr, c1, c2, existingSize_eq]
+
+theorem call_own_shm (g : G) (t : Tid) (h : Hid) (y : PShm) (hi : Idle g t) (hh : g.hs h = some (g.pidOf t, .shm y)) :
+    (g.call t (.own h)).os = g.os ∧
+    (g.call t (.own h)).hs = (fun h' => if h' = h then
+      some (g.pidOf t, .shm { y with created := true, sem := { y.sem with created := true } }) else g.hs h') ∧
+    (g.call t (.own h)).calls t = none ∧ (g.call t (.own h)).pidOf = g.pidOf := by
+  shm_simp [hi.alive, hi.idle, hh]
+
+/-- `p_shm_free` of an owner's handle while segment and lock names are bound:
+    `munmap (addr, size)`, `shm_unlink`, `sem_close`, `sem_unlink` -/
+theorem call_free_shm_owner (g : G) (t : Tid) (h : Hid) (y : PShm) (s : SegId) (ol : ObjId) (hi : Idle g t)
+    (hh : g.hs h = some (g.pidOf t, .shm y)) (hc : y.created = true) (hsc : y.sem.created = true)
+    (hk : g.os.shmNames y.key = some s) (hl : g.os.semNames y.sem.key = some ol) (hs : y.size ≠ 0) :
+    (g.call t (.free h)).os = ((g.os.afterMunmap (g.pidOf t) y.addr y.size).shmRemove y.key).semRemove y.sem.key ∧
+    (g.call t (.free h)).hs = (fun h' => if h' = h then none else g.hs h') ∧
+    (g.call t (.free h)).calls t = none ∧ (g.call t (.free h)).pidOf = g.pidOf := by
+  refine ⟨?_, ?_⟩
+  · shm_simp [hi.alive, hi.idle, hh, hc, hsc, hk, hl, hs, OS.afterMunmap, OS.shmRemove, OS.semRemove]
+  · shm_simp [hi.alive, hi.idle, hh, hc, hsc, hk, hl, hs]
+
+/-- `p_shm_free` of a plain (non-owner) handle: `munmap (addr, size)`, `sem_close` -/
+theorem call_free_shm_plain (g : G) (t : Tid) (h : Hid) (y : PShm) (hi : Idle g t)
+    (hh : g.hs h = some (g.pidOf t, .shm y)) (hc : y.created = false) (hsc : y.sem.created = false) (hs : y.size ≠ 0) :
+    (g.call t (.free h)).os = g.os.afterMunmap (g.pidOf t) y.addr y.size ∧
+    (g.call t (.free h)).hs = (fun h' => if h' = h then none else g.hs h') ∧
+    (g.call t (.free h)).calls t = none ∧ (g.call t (.free h)).pidOf = g.pidOf := by
+  refine ⟨?_, ?_⟩
+  · shm_simp [hi.alive, hi.idle, hh, hc, hsc, hs, OS.afterMunmap]
+  · shm_simp [hi.alive, hi.idle, hh, hc, hsc, hs]
+
+/-- `p_shm_lock` = `p_semaphore_acquire` on the handle's lock semaphore -/
+theorem call_lock (g : G) (t : Tid) (h : Hid) (y : PShm) (hi : Idle g t)
+    (hh : g.hs h = some (g.pidOf t, .shm y)) (hv : (g.os.sems y.sem.obj).value ≠ 0) :
+    (g.call t (.lock h)).os = g.os.semSub y.sem.obj ∧ (g.call t (.lock h)).hs = g.hs ∧
+    (g.call t (.lock h)).ret t = some .unit ∧ (g.call t (.lock h)).calls t = none := by
+  shm_simp [hi.alive, hi.idle, hh, hv, OS.semSub]
+
+theorem call_unlock (g : G) (t : Tid) (h : Hid) (y : PShm) (hi : Idle g t)
+    (hh : g.hs h = some (g.pidOf t, .shm y)) :
+    (g.call t (.unlock h)).os = g.os.semAdd y.sem.obj 1 ∧ (g.call t (.unlock h)).hs = g.hs ∧
+    (g.call t (.unlock h)).ret t = some .unit ∧ (g.call t (.unlock h)).calls t = none := by
+  shm_simp [hi.alive, hi.idle, hh, OS.semAdd]
+
+/-! ## memory access -/
+
+theorem call_rd (g : G) (t : Tid) (h : Hid) (y : PShm) (off : Nat) (hi : Idle g t)
+    (hh : g.hs h = some (g.pidOf t, .shm y)) :
+    (g.call t (.rd h off)).ret t = some (match g.os.load (g.pidOf t) y.addr off with | .val b => .byte b | .fault => .fault) ∧
+    (g.call t (.rd h off)).os = g.os ∧ (g.call t (.rd h off)).hs = g.hs := by
+  cases hl : g.os.load (g.pidOf t) y.addr off <;>
+    shm_simp [hi.alive, hi.idle, hh, hl]
+
+theorem call_wr (g : G) (t : Tid) (h : Hid) (y : PShm) (off : Nat) (b : UInt8) (os' : OS) (hi : Idle g t)
+    (hh : g.hs h = some (g.pidOf t, .shm y)) (hst : g.os.store (g.pidOf t) y.addr off b = some os') :
+    (g.call t (.wr h off b)).os = os' ∧ (g.call t (.wr h off b)).hs = g.hs ∧
+    (g.call t (.wr h off b)).calls t = none ∧ (g.call t (.wr h off b)).pidOf = g.pidOf := by
+  shm_simp [hi.alive, hi.idle, hh, hst]
+
+/-- a store through a shared writable mapping, inside mapping and object, updates the object's byte -/
+theorem store_eq (os : OS) (p : Pid) (a off : Nat) (b : UInt8) (m : Mapping) (hm : findMap (os.procs p) a = some m)
+    (h1 : off < m.len) (h2 : m.writable = true) (h3 : m.off + off < (os.segs m.seg).bytes.length) (h4 : m.shared = true) :
+    os.store p a off b = some { os with segs := fun s' => if s' = m.seg then
+      { os.segs m.seg with bytes := (os.segs m.seg).bytes.set (m.off + off) b } else os.segs s' } := by
+  simp [OS.store, hm, h1, h2, h3, h4]
+
+theorem load_eq (os : OS) (p : Pid) (a off : Nat) (m : Mapping) (hm : findMap (os.procs p) a = some m)
+    (h1 : off < m.len) (h3 : m.off + off < (os.segs m.seg).bytes.length) :
+    os.load p a off = .val ((os.segs m.seg).bytes[m.off + off]'h3) := by
+  simp [OS.load, hm, h1, List.getElem?_eq_getElem h3]
+
+/-- MAP_SHARED contract lifted to mappings: a byte stored through one mapping of an object is the
+    byte loaded through any other mapping of the same object at the same offset -/
+theorem shared_bytes (os os' : OS) (p1 p2 : Pid) (a1 a2 off : Nat) (b : UInt8) (m1 m2 : Mapping)
+    (hm1 : findMap (os.procs p1) a1 = some m1) (hm2 : findMap (os.procs p2) a2 = some m2)
+    (hseg : m1.seg = m2.seg) (ho1 : m1.off = 0) (ho2 : m2.off = 0)
+    (h1 : off < m1.len) (h2 : off < m2.len) (hw : m1.writable = true) (hsh : m1.shared = true)
+    (hL : off < (os.segs m1.seg).bytes.length)
+    (hst : os.store p1 a1 off b = some os') : os'.load p2 a2 off = .val b := by
+  rw [store_eq os p1 a1 off b m1 hm1 h1 hw (by rw [ho1]; simpa using hL) hsh] at hst
+  simp only [Option.some.injEq] at hst
+  subst hst
+  simp [OS.load, hm2, h2, ← hseg, ho1, ho2, hL]
+
+/-! ## mappings -/
+
+theorem rwWritable : hasFlag shmMmapProtRW PROT_WRITE = true := by decide
+theorem mapShared : hasFlag shmMmapFlags MAP_SHARED = true := by decide
+
+theorem findMap_afterNew_head (pr : Proc) (s : SegId) (len : Nat) (ro : Bool) :
+    findMap (pr.afterNew s len ro) pr.nextAddr =
+      some { addr := pr.nextAddr, seg := s, off := 0, len := len,
+             writable := hasFlag (if ro then shmMmapProtRO else shmMmapProtRW) PROT_WRITE,
+             shared := hasFlag shmMmapFlags MAP_SHARED } := by
+  simp [findMap, Proc.afterNew]
+
+theorem findMap_afterNew_old (pr : Proc) (s : SegId) (len : Nat) (ro : Bool) (a : Nat) (h : a ≠ pr.nextAddr) :
+    findMap (pr.afterNew s len ro) a = findMap pr a := by
+  have : pr.nextAddr ≠ a := fun e => h e.symm
+  simp [findMap, Proc.afterNew, this]
+
+/-- `munmap (addr, len)` of exactly the mapping `p_shm_new` added removes it and nothing else,
+    provided no older mapping starts at the same address (addresses are handed out increasingly) -/
+theorem munmapF_afterNew (pr : Proc) (s : SegId) (len : Nat) (ro : Bool)
+    (hfresh : ∀ m ∈ pr.maps, m.addr ≠ pr.nextAddr) :
+    (munmapF (pr.afterNew s len ro) pr.nextAddr len).maps = pr.maps := by
+  simp only [munmapF, Proc.afterNew, List.flatMap_cons, if_true, Nat.le_refl, ge_iff_le, List.nil_append]
+  have : ∀ (l : List Mapping), (∀ m ∈ l, m.addr ≠ pr.nextAddr) →
+      l.flatMap (fun m => if m.addr = pr.nextAddr then
+        (if pages m.len ≤ pages len then [] else
+          [{ m with addr := m.addr + pages len, off := m.off + pages len * pageSize, len := m.len - pages len * pageSize }])
+        else [m]) = l := by
+    intro l
+    induction l with
+    | nil => intro _; rfl
+    | cons m l ih =>
+      intro h
+      have hm := h m (List.mem_cons_self)
+      simp only [List.flatMap_cons, hm, if_false, List.singleton_append]
+      rw [ih (fun m' hm' => h m' (List.mem_cons_of_mem _ hm'))]
+  exact this pr.maps hfresh
+
 end PV.IPC
